@@ -19,7 +19,7 @@ run_one() { # target prop maxlen
   : > "$corpus/empty"
   if [ "$target" = "fz_source" ]; then cp /verif/fuzz/seeds/*.txt "$corpus/" 2>/dev/null; fi
   ( cd /verif/work/fuzzlogs/$prop && rm -f fuzz-*.log && VERIF_FUZZ_PROP="$prop" "$BIN/$target" "$corpus" -runs="$RUNS" -seed="$SEED" \
-      -len_control=0 -max_len="$maxlen" -timeout=60 -jobs="$JOBS" -workers="$JOBS" -dict=/verif/fuzz/cel.dict \
+      -len_control=0 -max_len="$maxlen" -timeout=300 -jobs="$JOBS" -workers="$JOBS" -dict=/verif/fuzz/cel.dict \
       -artifact_prefix=/verif/work/fuzzlogs/$prop/ >/verif/work/fuzzlogs/$prop/driver.log 2>&1 )
   local viol; viol=$(grep -h -A1 '^VIOLATION' /verif/work/fuzzlogs/$prop/fuzz-*.log 2>/dev/null | head -4)
   local done_runs; done_runs=$(grep -h -o 'Done [0-9]* runs' /verif/work/fuzzlogs/$prop/fuzz-*.log 2>/dev/null | awk '{s+=$2} END {print s+0}')
